@@ -21,6 +21,12 @@ RULE = ('exhaustive small scope: every cluster-assignment vector up to the tier\
         'dtype of int8/uint8/int16/uint16/int32/uint32/int64 that holds them, so with the top bit of the unsigned dtypes set), '
         'and the three TemplateModel queries on an instance built by the real loader from a dataset directory (every template '
         'vector of length 2..3 (quick) / 4 over {0,1,2,3}, spike_clusters.npy absent or present, every dtype); '
+        'stage 6: _spikes_in_clusters jointly over the spread of the ids (spacing 1 .. 10^7, ids up to 2^31 - 1) and the length of '
+        'the request (0 .. 70 ids, present / absent / duplicated, any order; given as list, tuple, int64 array or strided view), '
+        'i.e. over all three internal algorithms of np.isin (lookup table, per-id loop, merge sort), 2 .. 300 (quick) / 3000 spikes '
+        'over 1 .. 24 clusters; histories on one object: _index_of with the lookup as the caller\'s own ndarray of the dtype of '
+        'the case, 0 .. 3 earlier calls on that same lookup object and the judged call made 1 .. 3 times on the same argument '
+        'objects, the other helpers and queries called 2 .. 3 times on the same argument objects, every result judged; '
         'then seeded random long vectors. Non-trivial = at least two spikes and, '
         'for grouping/selection, at least two distinct ids or a non-empty result; distinct = distinct '
         'abstract input.')
